@@ -307,8 +307,8 @@ func c03PostingFocus(f int) c03PostCfg {
 	case 5: // comment with tags after every kind of last token
 		return c03PostCfg{indN: 1, statusN: 1, virtN: 2, gapN: 1, amt: 1, forms: []int{0, 3, 11}, syms: []int{2, 4},
 			nSym: 1, shapes: one, costN: 1, assertN: 1, cmnts: c03AllCmnts[1:], nCmnt: 1, wsN: 1, cmntWS: 3}
-	case 6: // indentation
-		return c03PostCfg{indN: 9, statusN: 2, virtN: 1, gapN: 1, amt: 1, forms: []int{0}, shapes: one, costN: 1, assertN: 1, cmnts: noC, wsN: 1}
+	case 6: // indentation x status x virtual kind (a status mark in front of a parenthesised account)
+		return c03PostCfg{indN: 9, statusN: 3, virtN: 3, gapN: 1, amt: 1, forms: []int{0}, shapes: one, costN: 1, assertN: 1, cmnts: noC, wsN: 1}
 	case 7: // number notations inside cost and assertion
 		return c03PostCfg{indN: 1, statusN: 1, virtN: 1, gapN: 1, amt: 2, forms: []int{0}, shapes: one, costN: 2, assertN: 2,
 			costForms: []int{3, 13}, costSyms: []int{0, 2}, assForms: []int{1, 11}, assSyms: []int{0, 2}, nSym: 1, subShapes: c03NumShapes(false), cmnts: noC, wsN: 1}
